@@ -31,7 +31,7 @@ def judge(res, traces, wd):
         keys.add(key)
         for what, detail in clauses:
             res.violation("C15|%s|d=%d" % (what, t["d"]), "partition with %d block(s), calls [%s]: %s (detail %s)" % (
-                t["d"], key, what, detail), dict(d=t["d"], h=t["h"]))
+                t["d"], key, what, detail), dict(d=t["d"], ctor=t.get("ctor", 1), h=t["h"]))
     res.distinct_nontrivial = len(keys)
 
 
